@@ -705,3 +705,63 @@ Theorem C17_install_any_block_refuted :
   ~ install_any_block_stmt.
 Proof. exact install_any_block_refuted. Qed.
 Print Assumptions C17_install_any_block_refuted.
+
+(* --------------------------------------------------------------------------------------------------------------
+   SOURCE TIE (what a run's command line does to the process-wide switches): CommandLineTestRunner::initializeTestRun as translated on every run into gen/Gen_HeapC12R.v -- setRethrowExceptions is called with this run's value whatever the switch was, setCrashOnFail only ever switches on; C17_ModelP.runner_globals is that effect, the 'only ever on' variant is not
+   -------------------------------------------------------------------------------------------------------------- *)
+From CppUVerif Require gen.Gen_HeapC12R C12_RunnerTie C12_RunnerLinks.
+Local Open Scope Z_scope.
+Theorem C17_initializeTestRun_events :
+  forall (fuel : nat) (h : heap) (evs : list Gen_HeapC12R.rnev) (gf nf v vv c sep ri cr rt : Z)
+  (ps rs ms : list Z) (this : hptr),
+  Gen_HeapC12R.src_runner_initializeTestRun fuel h evs gf nf v vv c sep ri cr rt ps rs ms this =
+  FOk
+  (tt, h, evs ++ C12_RunnerTie.init_events gf nf v vv c sep ri cr rt, gf, nf, v, vv, c, sep, ri, cr, rt, ps,
+  rs, ms).
+Proof. exact C12_RunnerTie.initializeTestRun_events. Qed.
+Print Assumptions C17_initializeTestRun_events.
+
+Theorem C17_initializeTestRun_effect :
+  forall (s : C12_RunnerTie.switches) (gf nf v vv c sep ri cr rt : Z),
+  let s' := C12_RunnerTie.after s (C12_RunnerTie.init_events gf nf v vv c sep ri cr rt) in
+  C12_RunnerTie.s_gf s' = gf /\
+  C12_RunnerTie.s_nf s' = nf /\
+  C12_RunnerTie.s_rethrow s' = z2b rt /\
+  C12_RunnerTie.s_run_ignored s' = C12_RunnerTie.s_run_ignored s || z2b ri /\
+  C12_RunnerTie.s_separate s' = C12_RunnerTie.s_separate s || z2b sep /\
+  C12_RunnerTie.s_crash s' = C12_RunnerTie.s_crash s || z2b cr /\
+  C12_RunnerTie.s_color s' = C12_RunnerTie.s_color s || z2b c /\
+  C12_RunnerTie.s_verbosity s' =
+  (if z2b vv then Zpos 2 else if z2b v then Zpos 1 else C12_RunnerTie.s_verbosity s).
+Proof. exact C12_RunnerTie.initializeTestRun_effect. Qed.
+Print Assumptions C17_initializeTestRun_effect.
+
+Theorem C17_runner_globals_is_the_translated_initializeTestRun :
+  forall (cl : cmdline) (g : globals) (s : C12_RunnerTie.switches) (gf nf v vv col sep ri : Z),
+  let s' :=
+  C12_RunnerTie.after (C12_RunnerLinks.sw_of_globals g s)
+  (C12_RunnerTie.init_events gf nf v vv col sep ri (b2z (cl_f cl)) (b2z (negb (cl_e cl)))) in
+  C12_RunnerTie.s_rethrow s' = g_rethrow (runner_globals cl g) /\
+  C12_RunnerTie.s_crash s' = g_crash (runner_globals cl g).
+Proof. exact C12_RunnerLinks.runner_globals_is_the_translated_initializeTestRun. Qed.
+Print Assumptions C17_runner_globals_is_the_translated_initializeTestRun.
+
+Theorem C17_only_on_differs_from_the_source :
+  let g := {| g_rethrow := true; g_crash := false; g_stale := false |} in
+  let cl := {| cl_e := true; cl_f := false; cl_p := false; cl_v := 0; cl_c := false; cl_rep := 1 |} in
+  g_rethrow (runner_globals_only_on cl g) = true /\
+  C12_RunnerTie.s_rethrow
+  (C12_RunnerTie.after
+  (C12_RunnerLinks.sw_of_globals g
+  {|
+  C12_RunnerTie.s_gf := Z0;
+  C12_RunnerTie.s_nf := Z0;
+  C12_RunnerTie.s_verbosity := Z0;
+  C12_RunnerTie.s_color := false;
+  C12_RunnerTie.s_separate := false;
+  C12_RunnerTie.s_run_ignored := false;
+  C12_RunnerTie.s_crash := false;
+  C12_RunnerTie.s_rethrow := false
+  |}) (C12_RunnerTie.init_events Z0 Z0 Z0 Z0 Z0 Z0 Z0 Z0 (b2z (negb (cl_e cl))))) = false.
+Proof. exact C12_RunnerLinks.only_on_differs_from_the_source. Qed.
+Print Assumptions C17_only_on_differs_from_the_source.
